@@ -66,9 +66,32 @@ def lean_sources():
     return sorted(out)
 
 
-def grep_forbidden():
+def import_closure(modules):
+    """files of this project reachable through `import AmaranthVerif.…` from the given module names"""
+    seen, todo = {}, list(modules)
+    while todo:
+        m = todo.pop()
+        if m in seen:
+            continue
+        path = os.path.join(LEAN, *m.split(".")) + ".lean"
+        if not os.path.exists(path):
+            continue
+        seen[m] = path
+        for line in open(path):
+            mm = re.match(r"\s*(?:public\s+)?import\s+(AmaranthVerif\.\S+)", line)
+            if mm:
+                todo.append(mm.group(1))
+    return seen
+
+
+def grep_forbidden(prop_id=None):
+    """forbidden tokens in the import closure of Properties/<id>.lean (all sources when no id given)"""
+    if prop_id is None:
+        paths = lean_sources()
+    else:
+        paths = sorted(import_closure([f"AmaranthVerif.Properties.{prop_id}"]).values())
     hits = []
-    for path in lean_sources():
+    for path in paths:
         if "/Driver/" in path or path.endswith("Sexp.lean"):
             # the driver's I/O glue may use `partial`; it carries no theorem
             continue
@@ -274,7 +297,7 @@ class Check:
             self.build_log = log
             return False
         self.obligations.append((f"lake build {target}", True, ""))
-        hits = grep_forbidden()
+        hits = grep_forbidden(self.id)
         self.obligations.append(("no sorry/admit/axiom/native_decide/bv_decide/implemented_by/unsafe/maxHeartbeats 0", not hits, "; ".join(hits)))
         if hits:
             raise Infra("forbidden token in Lean sources: " + "; ".join(hits))
